@@ -151,6 +151,7 @@ class Textual:
         self._all = {}
         self.sites = {}  # partial name -> number of include/render nodes naming it in the expanded program
         self.include_under_isolation = False
+        self.site_detail = {}  # partial name -> distinct [kind, argument names, bound variable name(s)]
 
     def template(self, name):
         if name not in self.templates:
@@ -228,6 +229,9 @@ class Textual:
             if pi is not None and pi[1] is not None:
                 kind, lit, _ = pi
                 self.sites[lit] = self.sites.get(lit, 0) + 1
+                d = [kind, [str(a.name) for a in node.args], pi[2][len(node.args):]]
+                if d not in self.site_detail.setdefault(lit, []):
+                    self.site_detail[lit].append(d)
                 if kind == "include" and dead:
                     self.include_under_isolation = True
                 if lit not in stack:
@@ -470,27 +474,34 @@ def observe(prog):
             if kind == "resolve":
                 resolves.add((root, tmpl, pos, str(f["origin"])))
                 return
-            if chain:
-                # BoundTemplate.name is the base name; the analysis names a partial as the tag spells it
-                lit = partial_info(chain[-1][1])[1]
-                if lit is not None and lit != tmpl and lit.rsplit("/", 1)[-1] == tmpl:
-                    tmpl = lit
-            tx.ensure(tmpl)
+            # Which template does the reference belong to?  The hook reports context.template.name at lookup
+            # time: a base name ('p0' for 'dir/p0'), and for `include 'q' with v` already the included template.
+            # The token's source text and the dynamic chain decide: the template entered by chain[i] is the
+            # literal name of chain[i]; a reference in it is enclosed by chain[: i + 1]; the root by nothing.
             src = f.get("source")
-            if chain and (sources.get(tmpl) != src or (tmpl, pos) not in tx.owner):
-                # `include 'q' with v`: v is evaluated after the context switched to the included template;
-                # the reference belongs to the including template (the innermost partial node's own template).
-                # The token's source text says which template the reference was parsed from.
-                site_tmpl = chain[-1][0]
-                tx.ensure(site_tmpl)
-                if (site_tmpl, pos) in tx.owner and (src is None or sources.get(site_tmpl, src) == src):
-                    tmpl, chain = site_tmpl, chain[:-1]
+            cands = []
+            for i in range(len(chain) - 1, -1, -1):
+                lit = partial_info(chain[i][1])[1]
+                if lit is not None:
+                    cands.append((lit, chain[: i + 1]))
+            cands.append((root_name, []))
+            for cand, ch in cands:
+                tx.ensure(cand)
+                if (cand, pos) in tx.owner and (src is None or sources.get(cand) == src):
+                    tmpl, chain = cand, ch
+                    break
+            else:
+                tx.ensure(tmpl)
             if chain and tx.owner.get((tmpl, pos)) == node_key(chain[-1][0], chain[-1][1]):
                 chain = chain[:-1]  # an argument of the partial tag itself, evaluated in the including context
             exc = tx.excused(root, tmpl, pos, chain)
             path = f.get("path") or []
             shape = [s if isinstance(s, (str, int)) and not isinstance(s, bool) else None for s in path]
-            kinds = tuple(partial_info(n)[0] + ":" + str(partial_info(n)[1]) for _, n in chain)
+            kinds = tuple(
+                partial_info(n)[0] + ":" + str(partial_info(n)[1]) + ":" + ",".join(str(a.name) for a in n.args) + ":"
+                + ",".join(partial_info(n)[2][len(n.args):])
+                for _, n in chain
+            )
             gets.setdefault((root, tmpl, pos, str(f["origin"]), exc, kinds), (shape, (tmpl, pos) in tx.dynroot))
 
     old = _verif.sink
@@ -525,6 +536,7 @@ def observe(prog):
     obs["tags"] = sorted(list(x) for x in tags)
     obs["resolves"] = sorted(list(x) for x in resolves)
     obs["sites"] = dict(sorted(tx.sites.items()))
+    obs["site_detail"] = dict(sorted(tx.site_detail.items()))
     obs["include_under_isolation"] = tx.include_under_isolation
     return obs
 
@@ -573,9 +585,16 @@ def direct_oracle(obs):
         if g["root"] in glob_roots:
             continue
         cause = "unexplained"
-        multi = [c for c in g["chain"] if sites.get(c.split(":", 1)[1], 0) > 1]
+        multi = [c.split(":") for c in g["chain"] if sites.get(c.split(":")[1], 0) > 1]
         if multi:
-            cause = "partial-reached-twice:" + multi[-1].split(":", 1)[0]
+            kind, pname, args, bound = multi[-1]
+            cause = "partial-reached-twice:" + kind
+            if kind == "render":
+                # the de-duplication key of render is (name, argument names): only a site with the same
+                # argument names and another bound variable is the listed defect
+                others = [d for d in (obs.get("site_detail") or {}).get(pname, [])
+                          if d[0] == "render" and ",".join(d[1]) == args and ",".join(d[2]) != bound]
+                cause += ":same-key-other-binding" if others else ":other"
         elif obs.get("include_under_isolation"):
             cause = "include-under-isolation"
         return ("global-omitted|" + cause, g)
